@@ -432,7 +432,8 @@ pub fn run(ctx: &Ctx) -> CheckOutput {
                 JobOut { stats: st, viols: sink.take(), samples: vec![json!({"explorer":"TREE x TREE","scalar":"Q","view":spec.name(),"K":k,"prefix_alphabet":cat(&Z3,&BIG),"prefix_depth":pdepth,"suffix_alphabet":Z3})] }
             }));
         }
-        for alpha in [Z3.to_vec(), Z5.to_vec()] {
+        // (the third alphabet is Z3 in a unit of 2^-70: an absolute threshold turns "nearly flat" into "holding")
+        for alpha in [Z3.to_vec(), Z5.to_vec(), Z3.iter().map(|x| x * 2f64.powi(-70)).collect::<Vec<f64>>()] {
             let spec = spec.clone();
             jobs.push(Box::new(move || {
                 let mut st = Stats::default();
